@@ -21,12 +21,27 @@ SUBJECT = {
     "ge": ("    for x in [x0, x1]:\n        assert x >= snapshot({a})", "c0"),
     "in": ("    assert x0 in snapshot({a})", "[c0, c1]"),
     "gi": ("    s = snapshot({a})\n    assert s[1] == x0", "{{1: c0}}"),
+    "align_raises": ("    try:\n        assert [x0, AmbiguousEq()] == snapshot({a})\n    except ValueError:\n        pass", "[c0, c1]"),
     "nested": ("    assert [x0, x1] == snapshot({a})", "[snapshot(c0), snapshot(c1)]"),
     "nested3": ("    assert [x0, x1, x0] == snapshot({a})", "[snapshot(c0), c1, snapshot(c0)]"),
 }
 
 
+class AmbiguousEq:
+    """like a numpy array: comparing it with something else raises"""
+
+    def __eq__(self, other):
+        if isinstance(other, AmbiguousEq):
+            return True
+        raise ValueError("ambiguous truth value")
+
+    def __repr__(self):
+        return "AmbiguousEq()"
+
+
 def subject_wrong(op, v):
+    if op == "align_raises":
+        return False  # the comparison raises (the test swallows it): it is no result of a snapshot
     if op == "eq":
         return not (v["x0"] == v["c0"])
     if op == "le":
@@ -42,7 +57,9 @@ def subject_wrong(op, v):
 
 def green_case(op, pos, empty, fbits, vals, raising=False, finish=False):
     """3 snapshots in one test: the subject (operation `op`, possibly empty) at position pos, two == snapshots around it"""
-    world.reset(dict(vals))
+    ns0 = dict(vals)
+    ns0["AmbiguousEq"] = AmbiguousEq
+    world.reset(ns0)
     W.no_canon = True  # the text is never read here: no need to fork on which canonical token a value renders to
     try:
         line, arg = SUBJECT[op]
@@ -131,7 +148,7 @@ def real_exit_status():
     return ok
 
 
-SHARED_OPS = [op for op in SUBJECT if not op.startswith("nested")]
+SHARED_OPS = [op for op in SUBJECT if not op.startswith("nested") and op != "align_raises"]
 GLB = {"green_case": green_case, "shared_case": shared_case, "__name__": "harness.c07"}
 VALS = ["c0", "c1", "x0", "x1", "y0", "d0", "y1", "d1"]
 VD = "{" + ", ".join(f"{n!r}: {n}" for n in VALS) + "}"
